@@ -264,6 +264,7 @@ int main(int argc, char **argv)
             out = fopen(argv[3], "a");
             if (out == NULL) _exit(2);
             signal(SIGABRT, crash_handler); signal(SIGSEGV, crash_handler); signal(SIGBUS, crash_handler); signal(SIGFPE, crash_handler);
+            signal(SIGALRM, crash_handler); alarm(300);
             se = 0; wscale = 1.0;
             fresh_objects();
             for (size_t k = i; k < j; k++) {
